@@ -192,6 +192,7 @@ proof fn lemma_corr_push_children(ea: Seq<Expr>, e: int, ch: Seq<ExprId>, na: Se
 spec fn regex_ok(ea: Seq<Expr>, e: int, re: Regex) -> bool {
     arena_wf(re.arena@)
     && 0 <= nid(re.root_id) < re.arena@.len()
+    && !cell_preset(re.follow_cache)
     && re.input_from_position@.len() == leaf_count(ea, e)
     && re.endmarker_position == leaf_count(ea, e)
     && match re.arena@[nid(re.root_id)] {
